@@ -50,8 +50,16 @@ def setup(problem, domain, exact, h, life=False):
     if life:
         drv.setup_operators(ns)
         drv.solve(ns)
+    first = list(mesh.leaf_elements)
     for rect, ax in h:
         mesh.refine_axis(find_leaf(mesh, rect), ax)
+    if life == 2:
+        # ... and every single-layer operator of the driver has, in between, assembled a block of the FINAL shape for another
+        # element list (the elements of the first mesh, all in one slab, repeated) - as an estimator working on the same object does
+        N = len(mesh.leaf_elements)
+        X = (first * N)[:N]
+        for op in [v for v in list(ns.values()) if type(v).__name__ == 'SingleLayerOperator']:
+            op.bilform_matrix(X, X)
     if not life:
         drv.setup_operators(ns)
     drv.solve(ns)
@@ -61,7 +69,7 @@ def setup(problem, domain, exact, h, life=False):
 
 def task(item):
     problem, domain, exact, h, idx = item[:5]
-    life = bool(item[5]) if len(item) > 5 else False
+    life = item[5] if len(item) > 5 else False
     out = {'n': 0, 'viol': None, 'ratio': 0.0, 'skipped': 0}
     try:
         ns = setup(problem, domain, exact, h, life)
@@ -177,6 +185,18 @@ def run(ctx):
             n_life += 1
             for idx in range(n_leaves):
                 items.append((problem, domain, exact, h, idx, True))
+    # lifecycle with an assembly of the final shape in between (mode 2): every leaf of the first mesh bisected in time twice (four
+    # slabs, 16 and more leaves: the serial assembly path, acausal pairs where the intermediate block had causal ones)
+    for problem, domain, exact in life_plan[:2 if ctx.tier == 'quick' else len(life_plan)]:
+        cfgname = driver.DOMAIN_CFG[domain]
+        mm = meshmc.build(meshmc.CFGS[cfgname], ())
+        h = ()
+        for _ in range(2):
+            h = h + tuple((meshmc.rect_of(e), 0) for e in mm.leaf_elements)
+            mm = meshmc.build(meshmc.CFGS[cfgname], h)
+        n_life += 1
+        for idx in range(len(mm.leaf_elements)):
+            items.append((problem, domain, exact, h, idx, 2))
     # keep items of one mesh adjacent (setup is cached per worker) but spread meshes over workers
     res = pmap(task, items, ctx.jobs, chunksize=max(1, len(items) // (ctx.jobs * 12)))
     n = skipped = 0
@@ -190,8 +210,8 @@ def run(ctx):
             tag, v = r['viol']
             life = len(it) > 5 and it[5]
             ctx.violation({'tag': tag + ('|operators-created-before-refinement' if life else ''), 'problem': it[0], 'domain': it[1], 'exact': it[2]},
-                          '{} for {} on {} (switch {}) after history {}{}: {}'.format(tag, it[0], it[1], it[2], list(it[3]), ' applied AFTER the operators were created and had served the initial mesh' if life else '', v),
-                          {'problem': it[0], 'domain': it[1], 'exact': it[2], 'history': [[list(r_), ax] for r_, ax in it[3]], 'idx': it[4], 'lifecycle': bool(life)})
+                          '{} for {} on {} (switch {}) after history {}{}: {}'.format(tag, it[0], it[1], it[2], list(it[3]), (' applied AFTER the operators were created and had served the initial mesh' + (' (and a block of the final shape for other elements)' if life == 2 else '')) if life else '', v),
+                          {'problem': it[0], 'domain': it[1], 'exact': it[2], 'history': [[list(r_), ax] for r_, ax in it[3]], 'idx': it[4], 'lifecycle': (life if life else False)})
     # call histories across problems / domains in one process (all ordered pairs of the combinations with initial data, plus
     # one Dirichlet partner each)
     m0 = [c for c in driver.COMBOS if c[0] in ('Smooth', 'Singular')]
@@ -226,6 +246,6 @@ def run(ctx):
 
 def replay(ctx, data):
     h = tuple((tuple(r), ax) for r, ax in data['history'])
-    r = task((data['problem'], data['domain'], data['exact'], h, data['idx'], bool(data.get('lifecycle'))))
+    r = task((data['problem'], data['domain'], data['exact'], h, data['idx'], (2 if data.get('lifecycle') == 2 else bool(data.get('lifecycle')))))
     print(r)
     return r['viol'] is None
